@@ -176,7 +176,7 @@ func (i *iteratorRole) ProcessTemplates(workflowRepo repos.IRepo, loadSubworkflo
 			go func(roleIdx int) {
 				defer wg.Done()
 				role := i.Roles[roleIdx]
-				err = role.ProcessTemplates(workflowRepo, loadSubworkflow, baseConfigStack)
+				err := role.ProcessTemplates(workflowRepo, loadSubworkflow, baseConfigStack)
 				if err != nil {
 					roleErrors = multierror.Append(roleErrors, err)
 				}
@@ -244,8 +244,7 @@ func (i *iteratorRole) expandTemplate() (err error) {
 				localValue := ran[rangeIdx]
 				locals := make(map[string]string)
 				locals[i.For.GetVar()] = localValue
-				var newRole Role
-				newRole, err = i.template.generateRole(locals)
+				newRole, err := i.template.generateRole(locals)
 				if err != nil {
 					roleErrors = multierror.Append(roleErrors, err)
 					return
